@@ -62,7 +62,11 @@ class Recorder:
             return None
         r = round(x)
         if abs(x - r) > 1e-6:
+            # only seen after a failed solve (the back end leaves garbage behind); the code treats a value as set
+            # when it exceeds 0.9, so the integer handed to the model is the one with the same reading
             self.nonintegral += 1
+            import math
+            return int(math.floor(x + 0.1))
         return int(r)
 
     def snapshot(self, prob):
